@@ -47,6 +47,18 @@ CHECKS = {
         text="Each of the 8 streaming file-to-file transforms is run under seeded gulps, sub-ranges, depths, file splits and arguments; every output file is parsed by the harness' own parser and compared with the whole-array definition (bit-exact, |v-mean|<1, one quantisation level), plus declared depth/nchans and inferred sample count. Fault runs (short read, EIO, ENOSPC) assert raises-or-exact.",
         note="Trusted: harness encoder/parser and numpy definitions; dispersion delays are taken from the library (C09 owns them). Files <= 160 samples, <= 16 channels, kernels on 1 thread.",
     ),
+    "C10": dict(
+        level="exploration", ref="DESIGN.md §4 C10",
+        technique="deterministic simulation of stream delivery: seeded chunk partitions, two-accumulator splits and merge orders of ChannelStats vs a two-pass float64 reference model; ddmin replay (no I/O fault applies)",
+        text="Seeded histories push one stream into ChannelStats whole, in a generated partition, and split between two accumulators merged in either order; count/min/max must be identical and exact, mean/var/skew/kurtosis within calibrated tolerances of the two-pass float64 values, constant channels exactly zero variance/skew, nothing non-finite.",
+        note="Tolerances are ~20x the worst error observed on the unchanged tree over 8e4 calibration scenarios (recorded in evidence assumptions). n <= 400 (2000 thorough), <= 6 channels. Kernels compiled, 1 thread.",
+    ),
+    "C17": dict(
+        level="exploration", ref="DESIGN.md §4 C17",
+        technique="deterministic simulation of call histories: seeded update_dm/update_period sequences checked after every call against a one-step reference (fresh cube, single update) and rotation/idempotence/restore invariants; ddmin replay (no fault applies)",
+        text="Seeded histories of up to 12 (30 thorough) re-tuning calls over an alphabet of targets incl. repeat-last and return-to-fold; after each call: reported values, rotation-only (all-distinct cube), idempotence of a repeated call, equality with a fresh cube updated once (single-parameter histories), bit-exact restore on return to the folding values.",
+        note="The one-step reference is the library's own single update on a fresh cube; rotation amounts themselves belong to C09. Mixed DM+period histories skip the fresh-cube clause.",
+    ),
     "C19": dict(
         level="exploration", ref="DESIGN.md §3.5, §4 C19",
         technique="deterministic simulation of the thread schedule: prange bodies of each kernel's own source run on virtual threads (baton-passing real threads, sys.monitoring INSTRUCTION pre-emption, seeded schedule) with an access-set race oracle and a single-thread reference; cross-checked on the compiled kernels under real thread counts",
